@@ -45,6 +45,7 @@ package local
 //@   requires [recv] c != nil
 //@   requires [typed] smhas(&c.flowControls, box(name)) ==> smget(&c.flowControls, box(name)) != nil && (typeis(smget(&c.flowControls, box(name)), "*flowcontrol.globalMaxInflight") || typeis(smget(&c.flowControls, box(name)), "*flowcontrol.globalTokenBucket"))
 //@   pure
+//@   panics-never
 //@   ensures result1 == smhas(&c.flowControls, box(name)) && (result1 ==> result == smget(&c.flowControls, box(name))) && (!result1 ==> result == nil)
 
 // (C08) After a sync, every schema of the latest spec that has a global limit is served by a limiter object of the kind
